@@ -201,6 +201,33 @@ def run_unit(unit):
                     if nrec <= 1:
                         run_case(agg, tmpdir, header, records, ",", True, "path")
                         run_case(agg, tmpdir, header, records, ",", True, "file")
+        elif what == "long":
+            # size thresholds: long files (33..1025 records) and wide files (12, 40 columns); a long run of one cell text with one
+            # deviating cell (other kind / blank / quoted / short record) at the front, in the middle, at the very end
+            _, run_text = unit
+            odd = ["", "7", "2.5", "x", "a,b", "x\ny", " 8 "]
+            for k in (33, 65, 129, 1025):
+                for o in odd:
+                    for place in ("front", "middle", "end"):
+                        col = [run_text] * k
+                        col.insert({"front": 0, "middle": k // 2, "end": k}[place], o)
+                        records = [(c, str(i)) for i, c in enumerate(col)]
+                        agg.states += 1; agg.nontrivial += 1
+                        for how in (("stringio", "path", "file") if k <= 129 else ("stringio",)):
+                            run_case(agg, tmpdir, ("h", "n"), records, ",", True, how)
+                # a short record (one cell) at the very end / in the middle of a long file
+                for place in (k // 2, k - 1):
+                    records = [(run_text, str(i)) for i in range(k)]
+                    records[place] = (run_text,)
+                    agg.states += 1; agg.nontrivial += 1
+                    run_case(agg, tmpdir, ("h", "n"), records, ",", True, "stringio")
+            for width in (12, 40):
+                header = tuple(f"c{j}" if j % 5 else "dup" for j in range(width))
+                records = [tuple(run_text if (i + j) % 7 else ["", "3", "y"][(i + j) % 3] for j in range(width)) for i in range(9)]
+                for hh in (True, False):
+                    agg.states += 1; agg.nontrivial += 1
+                    run_case(agg, tmpdir, header, records, ";", hh, "stringio")
+                    run_case(agg, tmpdir, header, records, ",", hh, "path")
         elif what == "empty":
             for delim in DELIMS:
                 for hh in (True, False):
@@ -235,6 +262,7 @@ def check(ctx):
             units.append(("w2", cells2, h, first))
     units += [("w1", CELLS_SEPS, h) for h in (("h",), ("a\x0cb",))]
     units += [("w2", CELLS_SEPS, ("h", "g"), first) for first in CELLS_SEPS]
+    units += [("long", txt) for txt in ("7", "2.5", "x", "")]
     units.append(("empty",))
     agg = core.merge_all(core.pmap(run_unit, units))
     agg.notes["bound"] = f"width-1 grids over {len(cells1)} cell texts, width-2 grids over {len(cells2)}; <=2 records"
